@@ -37,6 +37,8 @@ CHECKS = {
             "parts": [part("TestC18", 8, 200, 16, 4000)]},
     "C12": {"level": "exploration", "scheduled": True,
             "parts": [part("TestC12", 8, 150, 16, 3000), part("TestC12Lru", 2, 2000, 4, 100000)]},
+    "C19": {"level": "exploration", "scheduled": True,
+            "parts": [part("TestC19", 8, 100, 16, 2000)]},
     "C04": {"level": "exploration", "scheduled": True,
             "parts": [part("TestC04", 8, 100, 16, 1500)]},
 }
